@@ -23,6 +23,8 @@ UNKNOWN_RULES = ['Camelcase', 'snake-case', 'lower']
 IDENTS = ['A', 'B', 'Red', 'GreenLight', 'Unit', 'Ready', 'Failed', 'Ok2', 'V1', 'Http2', 'AddressLine1', 'Pending', 'Done', 'Empty', 'Leaf',
           'Branch', 'UserId', 'IpV4', 'X', 'Abc1Def', 'FooBar', 'Node', 'Type', 'Class', 'Default', 'None', 'Self2', 'Object', 'Case', 'Init']
 CAPS = ['URL', 'ID', 'TOTP', 'AB1', 'HTTP2', 'IO', 'X1']
+ODD_IDENTS = ['_2fa', '_3dSecure', '_1st', 'lower', 'snake_case_v', '_Lead', 'Trail_', 'X_y', 'camelCase']
+ODD_RENAMES = {'_2fa': '2fa', '_3dSecure': '3dSecure', '_1st': '1st'}
 TWINS = [('URL', 'Url'), ('FooBar', 'Foobar'), ('AB1', 'Ab1'), ('UserId', 'UserID'), ('Http2', 'HTTP2'), ('Id', 'ID')]
 KEY_WORDS = ['type', 'kind', 't', 'c', 'content', 'tag', 'data', 'value', 'class', 'func', 'case', 'default', 'in', 'is', 'object', 'val', 'var',
              'package', 'import', 'interface', 'def', 'from', 'pass', 'self', 'struct', 'go', 'range', 'let', 'enum', 'Type', 'myTag', 'my_tag',
@@ -55,6 +57,10 @@ class Gen:
             return r.choice(IDENTS)
         if c < 0.72:
             return r.choice(CAPS)
+        if c < 0.76:
+            # identifiers OUTSIDE the theorem's domain (not UpperCamelCase): nothing is judged there, but model and real code must still
+            # agree on them (seeded C02_d: Swift's raw-value decision for `_2fa` renamed to "2fa")
+            return r.choice(ODD_IDENTS)
         n = r.randint(0, 7)
         return r.choice(ALPHA).upper() + ''.join(r.choice(ALPHA + ALPHA.upper() + '0123456789') for _ in range(n))
 
@@ -120,6 +126,8 @@ class Gen:
             v.ident = nm
             if r.random() < 0.3:
                 v.rename = self.rename()
+            if nm in ODD_RENAMES and r.random() < 0.7:
+                v.rename = ODD_RENAMES[nm]
             if r.random() < 0.06:
                 v.skip = r.choice(['serde', 'typeshare'])
             v.docs = self.pg.docs()
